@@ -4,6 +4,7 @@ E4: full Cartesian grid of (w1, w2, l, t, rho, temp, tcr); oracle = closed form 
 import itertools
 from fractions import Fraction as F
 from ..common import Run, Res, seed
+import numpy as np
 from sysloss.utils import trace_res, plane_res, RHO, TCR
 
 PROP = "C20"
@@ -15,7 +16,7 @@ def grids(tier):
         Ls = [0.5, 1.0, 7.5, 15.0, 350.0]          # includes l == w (exactly one square)
         T = [5e-5, 0.0175, 0.035, 0.0350001, 0.07]  # includes nearly equal thicknesses and a 50 nm film
         R = [RHO, 1.68e-8, 2.65e-8]                # includes nearly equal resistivities
-        TE = [20.0, -40.0, 21.25, 36.64, 125.0]   # includes temperatures that are not multiples of 0.1
+        TE = [20.0, -40.0, 7.0, 21.25, 36.64, 125.0]   # includes temperatures that are not multiples of 0.1 and a whole number below the reference
         TC = [TCR, 0.0, 0.00429, 1.5]             # includes a coefficient above 1 per degree
     else:
         W = [0.001, 0.01, 0.05, 0.1, 0.127, 0.254, 1.0, 3.3, 7.5, 25.0]
@@ -82,8 +83,19 @@ def _check_case(case, res):
             res.v(("C20.defaults", "trace", "+".join(omit)), "%r: omitting %r differs from passing the documented defaults" % (case, omit))
         if plane_res(w=w1, l=l, t_mm=t, **given) != plane_res(w=w1, l=l, t_mm=t, **full):
             res.v(("C20.defaults", "plane", "+".join(omit)), "%r: omitting %r differs from passing the documented defaults" % (case, omit))
+    # the same numbers handed over as other numeric TYPES (Python int, numpy signed / unsigned ints, float32): same results
+    if float(te).is_integer():
+        forms = [int(te), np.int64(int(te)), np.int16(int(te)), np.float32(te)]
+        if 0 <= te < 256:
+            forms += [np.uint8(int(te)), np.uint16(int(te)), np.uint64(int(te))]
+        import warnings as _w
+        for tv in forms:
+            with _w.catch_warnings():
+                _w.simplefilter("ignore")
+                a_, b_ = float(tr(temp=tv)), float(pr(temp=tv))
+            if not rel(a_, r, 1e-6) or not rel(b_, p, 1e-6):
+                res.v(("C20.numeric-type", type(tv).__name__), "%r: temp=%r (%s) gives %r / %r, as float %r / %r" % (case, tv, type(tv).__name__, a_, b_, r, p))
     # arguments handed over as numpy values (a temperature sweep as an array): same numbers element by element, and the caller's array is left alone
-    import numpy as np
     tarr = np.array([te, te + 30.0, te - 7.5])
     tkeep = tarr.copy()
     for nm, f, ref in (("trace", lambda t_: trace_res(w1_mm=w1, w2_mm=w2, l_mm=l, t_mm=t, rho=rho, temp=t_, tcr=tc), tr),
